@@ -67,6 +67,12 @@ static std::string report(const Root& root, std::initializer_list<Named> vars) {
     return o;
 }
 
+// Two tables = two translation units of the same source (-DC14G_PART=1 / 2): a graph of 6..9 nodes costs
+// 3-6 s of template instantiation, the parts are built in different build groups.
+#ifndef C14G_PART
+#define C14G_PART 1
+#endif
+#if C14G_PART == 1
 // the table (generated once from the program strings; one row = the program and the same program as C++)
 #define DAGS(X) \
   X("x=L0;d=exp(x)", auto x_ = view::alias(arr0, 0_ct); auto d_ = view::exp(x_); return report(d_, {{"x", id_of(x_)}, {"d", id_of(d_)}});) \
@@ -84,14 +90,19 @@ static std::string report(const Root& root, std::initializer_list<Named> vars) {
   X("x=L0;y=L1;z=L2;p=sub(x,y);q=sub(y,z);r=sub(z,x);s=mul(p,q);d=add(s,r)", auto x_ = view::alias(arr0, 0_ct); auto y_ = view::alias(arr1, 1_ct); auto z_ = view::alias(arr2, 2_ct); auto p_ = view::subtract(x_, y_); auto q_ = view::subtract(y_, z_); auto r_ = view::subtract(z_, x_); auto s_ = view::multiply(p_, q_); auto d_ = view::add(s_, r_); return report(d_, {{"x", id_of(x_)}, {"y", id_of(y_)}, {"z", id_of(z_)}, {"p", id_of(p_)}, {"q", id_of(q_)}, {"r", id_of(r_)}, {"s", id_of(s_)}, {"d", id_of(d_)}});) \
   X("x=L0;y=L1;p=add(x,y);q=sub(p,x);r=mul(q,x);d=div(r,p)", auto x_ = view::alias(arr0, 0_ct); auto y_ = view::alias(arr1, 1_ct); auto p_ = view::add(x_, y_); auto q_ = view::subtract(p_, x_); auto r_ = view::multiply(q_, x_); auto d_ = view::divide(r_, p_); return report(d_, {{"x", id_of(x_)}, {"y", id_of(y_)}, {"p", id_of(p_)}, {"q", id_of(q_)}, {"r", id_of(r_)}, {"d", id_of(d_)}});) \
   X("x=L0;u=exp(x);s=sub(u,x);p=tanh(s);q=mul(p,s);d=add(q,s)", auto x_ = view::alias(arr0, 0_ct); auto u_ = view::exp(x_); auto s_ = view::subtract(u_, x_); auto p_ = view::tanh(s_); auto q_ = view::multiply(p_, s_); auto d_ = view::add(q_, s_); return report(d_, {{"x", id_of(x_)}, {"u", id_of(u_)}, {"s", id_of(s_)}, {"p", id_of(p_)}, {"q", id_of(q_)}, {"d", id_of(d_)}});) \
-  X("x=L0;y=L1;s=sub(x,y);t=sub(y,x);u=mul(s,t);v=div(s,t);w=div(t,s);k=sub(u,v);d=add(k,w)", auto x_ = view::alias(arr0, 0_ct); auto y_ = view::alias(arr1, 1_ct); auto s_ = view::subtract(x_, y_); auto t_ = view::subtract(y_, x_); auto u_ = view::multiply(s_, t_); auto v_ = view::divide(s_, t_); auto w_ = view::divide(t_, s_); auto k_ = view::subtract(u_, v_); auto d_ = view::add(k_, w_); return report(d_, {{"x", id_of(x_)}, {"y", id_of(y_)}, {"s", id_of(s_)}, {"t", id_of(t_)}, {"u", id_of(u_)}, {"v", id_of(v_)}, {"w", id_of(w_)}, {"k", id_of(k_)}, {"d", id_of(d_)}});) \
-  /* seeded random DAGs (harness-independent generator, fixed): random sharing, mirrored operands */ \
-  X("l0=L0;v0=cos(l0);v1=sub(v0,l0);v2=cos(v0);v3=sub(v0,v1);v4=neg(v2);v5=cos(v2);v6=sub(v3,v4);v7=sub(v6,v5)", auto l0_ = view::alias(arr0, 0_ct); auto v0_ = view::cos(l0_); auto v1_ = view::subtract(v0_, l0_); auto v2_ = view::cos(v0_); auto v3_ = view::subtract(v0_, v1_); auto v4_ = view::negative(v2_); auto v5_ = view::cos(v2_); auto v6_ = view::subtract(v3_, v4_); auto v7_ = view::subtract(v6_, v5_); return report(v7_, {{"l0", id_of(l0_)}, {"v0", id_of(v0_)}, {"v1", id_of(v1_)}, {"v2", id_of(v2_)}, {"v3", id_of(v3_)}, {"v4", id_of(v4_)}, {"v5", id_of(v5_)}, {"v6", id_of(v6_)}, {"v7", id_of(v7_)}});) \
-  X("l0=L0;l1=L1;v0=sub(l1,l0);v1=sin(v0);v2=cos(v0);v3=exp(v1);v4=sub(v2,v3);v5=sub(v2,v1);v6=sin(v5);v7=tanh(v6);v8=sub(v4,v7)", auto l0_ = view::alias(arr0, 0_ct); auto l1_ = view::alias(arr1, 1_ct); auto v0_ = view::subtract(l1_, l0_); auto v1_ = view::sin(v0_); auto v2_ = view::cos(v0_); auto v3_ = view::exp(v1_); auto v4_ = view::subtract(v2_, v3_); auto v5_ = view::subtract(v2_, v1_); auto v6_ = view::sin(v5_); auto v7_ = view::tanh(v6_); auto v8_ = view::subtract(v4_, v7_); return report(v8_, {{"l0", id_of(l0_)}, {"l1", id_of(l1_)}, {"v0", id_of(v0_)}, {"v1", id_of(v1_)}, {"v2", id_of(v2_)}, {"v3", id_of(v3_)}, {"v4", id_of(v4_)}, {"v5", id_of(v5_)}, {"v6", id_of(v6_)}, {"v7", id_of(v7_)}, {"v8", id_of(v8_)}});) \
-  X("l0=L0;l1=L1;l2=L2;v0=sub(l2,l1);v1=pow(v0,l2);v2=tanh(l1);v3=add(l0,v0);v4=cos(v0);v5=mul(v4,v1);v6=pow(v1,l0);v7=sub(v2,v3);v8=sub(v7,v5);v9=sub(v8,v6)", auto l0_ = view::alias(arr0, 0_ct); auto l1_ = view::alias(arr1, 1_ct); auto l2_ = view::alias(arr2, 2_ct); auto v0_ = view::subtract(l2_, l1_); auto v1_ = view::power(v0_, l2_); auto v2_ = view::tanh(l1_); auto v3_ = view::add(l0_, v0_); auto v4_ = view::cos(v0_); auto v5_ = view::multiply(v4_, v1_); auto v6_ = view::power(v1_, l0_); auto v7_ = view::subtract(v2_, v3_); auto v8_ = view::subtract(v7_, v5_); auto v9_ = view::subtract(v8_, v6_); return report(v9_, {{"l0", id_of(l0_)}, {"l1", id_of(l1_)}, {"l2", id_of(l2_)}, {"v0", id_of(v0_)}, {"v1", id_of(v1_)}, {"v2", id_of(v2_)}, {"v3", id_of(v3_)}, {"v4", id_of(v4_)}, {"v5", id_of(v5_)}, {"v6", id_of(v6_)}, {"v7", id_of(v7_)}, {"v8", id_of(v8_)}, {"v9", id_of(v9_)}});) \
-  X("l0=L0;v0=neg(l0);v1=tanh(v0);v2=cos(l0);v3=add(v0,v2);v4=pow(v3,v2);v5=sub(v1,v4)", auto l0_ = view::alias(arr0, 0_ct); auto v0_ = view::negative(l0_); auto v1_ = view::tanh(v0_); auto v2_ = view::cos(l0_); auto v3_ = view::add(v0_, v2_); auto v4_ = view::power(v3_, v2_); auto v5_ = view::subtract(v1_, v4_); return report(v5_, {{"l0", id_of(l0_)}, {"v0", id_of(v0_)}, {"v1", id_of(v1_)}, {"v2", id_of(v2_)}, {"v3", id_of(v3_)}, {"v4", id_of(v4_)}, {"v5", id_of(v5_)}});) \
-  X("l0=L0;l1=L1;l2=L2;v0=pow(l0,l1);v1=exp(l1);v2=sin(v1);v3=sin(l2);v4=div(l1,v2);v5=div(v1,l0);v6=cos(v2);v7=exp(v5);v8=sub(v0,v3);v9=sub(v8,v4);v10=sub(v9,v6);v11=sub(v10,v7)", auto l0_ = view::alias(arr0, 0_ct); auto l1_ = view::alias(arr1, 1_ct); auto l2_ = view::alias(arr2, 2_ct); auto v0_ = view::power(l0_, l1_); auto v1_ = view::exp(l1_); auto v2_ = view::sin(v1_); auto v3_ = view::sin(l2_); auto v4_ = view::divide(l1_, v2_); auto v5_ = view::divide(v1_, l0_); auto v6_ = view::cos(v2_); auto v7_ = view::exp(v5_); auto v8_ = view::subtract(v0_, v3_); auto v9_ = view::subtract(v8_, v4_); auto v10_ = view::subtract(v9_, v6_); auto v11_ = view::subtract(v10_, v7_); return report(v11_, {{"l0", id_of(l0_)}, {"l1", id_of(l1_)}, {"l2", id_of(l2_)}, {"v0", id_of(v0_)}, {"v1", id_of(v1_)}, {"v2", id_of(v2_)}, {"v3", id_of(v3_)}, {"v4", id_of(v4_)}, {"v5", id_of(v5_)}, {"v6", id_of(v6_)}, {"v7", id_of(v7_)}, {"v8", id_of(v8_)}, {"v9", id_of(v9_)}, {"v10", id_of(v10_)}, {"v11", id_of(v11_)}});) \
-  X("l0=L0;v0=cos(l0);v1=sin(l0);v2=sin(v0);v3=add(v1,l0);v4=cos(v0);v5=sub(v2,v3);v6=sub(v5,v4)", auto l0_ = view::alias(arr0, 0_ct); auto v0_ = view::cos(l0_); auto v1_ = view::sin(l0_); auto v2_ = view::sin(v0_); auto v3_ = view::add(v1_, l0_); auto v4_ = view::cos(v0_); auto v5_ = view::subtract(v2_, v3_); auto v6_ = view::subtract(v5_, v4_); return report(v6_, {{"l0", id_of(l0_)}, {"v0", id_of(v0_)}, {"v1", id_of(v1_)}, {"v2", id_of(v2_)}, {"v3", id_of(v3_)}, {"v4", id_of(v4_)}, {"v5", id_of(v5_)}, {"v6", id_of(v6_)}});)
+  X("x=L0;y=L1;s=sub(x,y);t=sub(y,x);u=mul(s,t);v=div(s,t);w=div(t,s);k=sub(u,v);d=add(k,w)", auto x_ = view::alias(arr0, 0_ct); auto y_ = view::alias(arr1, 1_ct); auto s_ = view::subtract(x_, y_); auto t_ = view::subtract(y_, x_); auto u_ = view::multiply(s_, t_); auto v_ = view::divide(s_, t_); auto w_ = view::divide(t_, s_); auto k_ = view::subtract(u_, v_); auto d_ = view::add(k_, w_); return report(d_, {{"x", id_of(x_)}, {"y", id_of(y_)}, {"s", id_of(s_)}, {"t", id_of(t_)}, {"u", id_of(u_)}, {"v", id_of(v_)}, {"w", id_of(w_)}, {"k", id_of(k_)}, {"d", id_of(d_)}});)
+#else
+// random DAGs (offline seeded generator, fixed): random sharing and operand order
+#define DAGS(X) \
+  X("l0=L0;v0=tanh(l0);v1=div(l0,v0);v2=exp(v0);v3=sin(v2);v4=exp(v1);v5=sub(v3,v4)", auto l0_ = view::alias(arr0, 0_ct); auto v0_ = view::tanh(l0_); auto v1_ = view::divide(l0_, v0_); auto v2_ = view::exp(v0_); auto v3_ = view::sin(v2_); auto v4_ = view::exp(v1_); auto v5_ = view::subtract(v3_, v4_); return report(v5_, {{"l0", id_of(l0_)}, {"v0", id_of(v0_)}, {"v1", id_of(v1_)}, {"v2", id_of(v2_)}, {"v3", id_of(v3_)}, {"v4", id_of(v4_)}, {"v5", id_of(v5_)}});) \
+  X("l0=L0;v0=exp(l0);v1=add(l0,v0);v2=tanh(l0);v3=sub(v1,v0);v4=sin(v2);v5=sub(v3,v4)", auto l0_ = view::alias(arr0, 0_ct); auto v0_ = view::exp(l0_); auto v1_ = view::add(l0_, v0_); auto v2_ = view::tanh(l0_); auto v3_ = view::subtract(v1_, v0_); auto v4_ = view::sin(v2_); auto v5_ = view::subtract(v3_, v4_); return report(v5_, {{"l0", id_of(l0_)}, {"v0", id_of(v0_)}, {"v1", id_of(v1_)}, {"v2", id_of(v2_)}, {"v3", id_of(v3_)}, {"v4", id_of(v4_)}, {"v5", id_of(v5_)}});) \
+  X("l0=L0;v0=sin(l0);v1=div(l0,v0);v2=add(v0,l0);v3=sub(v2,v0);v4=sub(v1,v3)", auto l0_ = view::alias(arr0, 0_ct); auto v0_ = view::sin(l0_); auto v1_ = view::divide(l0_, v0_); auto v2_ = view::add(v0_, l0_); auto v3_ = view::subtract(v2_, v0_); auto v4_ = view::subtract(v1_, v3_); return report(v4_, {{"l0", id_of(l0_)}, {"v0", id_of(v0_)}, {"v1", id_of(v1_)}, {"v2", id_of(v2_)}, {"v3", id_of(v3_)}, {"v4", id_of(v4_)}});) \
+  X("l0=L0;l1=L1;v0=neg(l1);v1=neg(v0);v2=div(v0,l0);v3=div(l1,v2);v4=sub(v1,v3)", auto l0_ = view::alias(arr0, 0_ct); auto l1_ = view::alias(arr1, 1_ct); auto v0_ = view::negative(l1_); auto v1_ = view::negative(v0_); auto v2_ = view::divide(v0_, l0_); auto v3_ = view::divide(l1_, v2_); auto v4_ = view::subtract(v1_, v3_); return report(v4_, {{"l0", id_of(l0_)}, {"l1", id_of(l1_)}, {"v0", id_of(v0_)}, {"v1", id_of(v1_)}, {"v2", id_of(v2_)}, {"v3", id_of(v3_)}, {"v4", id_of(v4_)}});) \
+  X("l0=L0;l1=L1;v0=pow(l1,l0);v1=div(l1,l0);v2=sin(l0);v3=pow(v2,v0);v4=sub(v1,v3)", auto l0_ = view::alias(arr0, 0_ct); auto l1_ = view::alias(arr1, 1_ct); auto v0_ = view::power(l1_, l0_); auto v1_ = view::divide(l1_, l0_); auto v2_ = view::sin(l0_); auto v3_ = view::power(v2_, v0_); auto v4_ = view::subtract(v1_, v3_); return report(v4_, {{"l0", id_of(l0_)}, {"l1", id_of(l1_)}, {"v0", id_of(v0_)}, {"v1", id_of(v1_)}, {"v2", id_of(v2_)}, {"v3", id_of(v3_)}, {"v4", id_of(v4_)}});) \
+  X("l0=L0;v0=sin(l0);v1=exp(l0);v2=div(v1,l0);v3=pow(v1,v0);v4=sub(v2,v3)", auto l0_ = view::alias(arr0, 0_ct); auto v0_ = view::sin(l0_); auto v1_ = view::exp(l0_); auto v2_ = view::divide(v1_, l0_); auto v3_ = view::power(v1_, v0_); auto v4_ = view::subtract(v2_, v3_); return report(v4_, {{"l0", id_of(l0_)}, {"v0", id_of(v0_)}, {"v1", id_of(v1_)}, {"v2", id_of(v2_)}, {"v3", id_of(v3_)}, {"v4", id_of(v4_)}});) \
+  X("l0=L0;v0=cos(l0);v1=exp(v0);v2=pow(l0,v0);v3=sub(l0,v1);v4=sub(v2,v3)", auto l0_ = view::alias(arr0, 0_ct); auto v0_ = view::cos(l0_); auto v1_ = view::exp(v0_); auto v2_ = view::power(l0_, v0_); auto v3_ = view::subtract(l0_, v1_); auto v4_ = view::subtract(v2_, v3_); return report(v4_, {{"l0", id_of(l0_)}, {"v0", id_of(v0_)}, {"v1", id_of(v1_)}, {"v2", id_of(v2_)}, {"v3", id_of(v3_)}, {"v4", id_of(v4_)}});) \
+  X("l0=L0;v0=cos(l0);v1=sin(l0);v2=mul(v1,v0);v3=neg(v1);v4=add(v3,v1);v5=sub(v2,v4)", auto l0_ = view::alias(arr0, 0_ct); auto v0_ = view::cos(l0_); auto v1_ = view::sin(l0_); auto v2_ = view::multiply(v1_, v0_); auto v3_ = view::negative(v1_); auto v4_ = view::add(v3_, v1_); auto v5_ = view::subtract(v2_, v4_); return report(v5_, {{"l0", id_of(l0_)}, {"v0", id_of(v0_)}, {"v1", id_of(v1_)}, {"v2", id_of(v2_)}, {"v3", id_of(v3_)}, {"v4", id_of(v4_)}, {"v5", id_of(v5_)}});)
+#endif
 
 static std::string handle(const Case& c) {
     if (c.op == "dag") {
